@@ -202,15 +202,16 @@ def transform(t, T, right=False, propagate=False):
     if not propagate:
         return RTraj([R @ Rt for R in t.Rs],
                      [p + R @ tt for R, p in zip(t.Rs, t.ps)], t.stamps)
-    if abs(s - 1.0) > 1e-12:
-        raise Ambiguous("propagated Sim(3) transformation is not specified")
+    # every relative motion D_i becomes D_i*T while the first pose is kept;
+    # for a similarity T the chain is a product of similarities (the scale
+    # drift accumulates), the orientations are the normalised rotation blocks
     P = t.poses()
-    Tm = geom.pose(Rt, tt)
     out = [P[0]]
     for k in range(t.n - 1):
         D = geom.pose_inv(P[k]) @ P[k + 1]
-        out.append(out[-1] @ D @ Tm)
-    return RTraj([M[:3, :3] for M in out], [M[:3, 3] for M in out], t.stamps)
+        out.append(out[-1] @ D @ T)
+    return RTraj([M[:3, :3] / np.cbrt(np.linalg.det(M[:3, :3])) for M in out],
+                 [M[:3, 3] for M in out], t.stamps)
 
 
 def project_positions(t, plane):
